@@ -140,6 +140,7 @@ inductive Op
   | addQuery (q : List UInt8)
   | remove (id : Nat)
   | resetTo (inp : List (Nat × List UInt8))
+  | resetSelf (idxs : List Nat)
   | reset
   deriving Repr, DecidableEq
 
@@ -150,6 +151,11 @@ def allocInputs : Mem → List (Nat × List UInt8) → Mem × List (Opt View)
     let (m1, v) := m.allocBytes x.2
     let (m2, vs) := allocInputs m1 rest
     (m2, (x.1, v) :: vs)
+
+/-- `in` built from the message's own `Options()`: option structs copied by index (modulo the length) into a slice
+of their own — their values are still views into the message's value buffer. -/
+def selectOwn (o : Options View) (idxs : List Nat) : List (Opt View) :=
+  idxs.filterMap (fun i => o.toList[i % o.toList.length]?)
 
 /-- One step of a history.  A setter that `panic`s with an error (a refusal) is recovered by the caller: the
 message is in the state the method left it in. -/
@@ -166,6 +172,7 @@ def step (g : Nat → Nat) (gb : Nat → Nat → Nat) (r : Msg) : Op → M Msg
   | .resetTo inp =>
     let (m1, views) := allocInputs r.mem inp
     do return (← ({ r with mem := m1 } : Msg).resetOptionsTo g gb views).1
+  | .resetSelf idxs => do return (← r.resetOptionsTo g gb (selectOwn r.opts idxs)).1
   | .reset => r.reset
 
 /-- A whole history. -/
